@@ -91,3 +91,40 @@ Proof.
   induction ts as [|x r IH]; intros H; [reflexivity|]. inversion H; subst. cbn [sers]. rewrite wfb_app.
   apply andb_true_iff; split; [eapply ser_wfb_strong; [apply le_n|assumption]|apply IH; assumption].
 Qed.
+
+(* ================= (b): Unmarshal reads every legal encoding ================= *)
+From Verif Require Proto.WireSpecProofs Proto.WireDecProofs.
+(* no zigzag tag on a field whose type is a struct or a pointer to a struct *)
+Definition zz_struct_ok : gty -> bool := WireDecProofs.A.zz_ok.
+
+(* the statement (b) of WireSpec.v with the hypothesis found missing by the proof of (b1): no zigzag tag on a field
+   whose type is a struct or a pointer to a struct (WireDecProofs.zz_ok) *)
+Definition unmarshal_reencoded_zz_statement : Prop :=
+  forall bp t m w, type_ok t = true -> is_struct_ty t = true -> numbers_ok (codec_of t) = true ->
+    tags_sane t = true -> plain t = true -> zz_struct_ok t = true ->
+    desc_wf (PMsg (fields_of t)) = true -> msg_wf (PMsg (fields_of t)) (PVMsg m) = true ->
+    reencodes bp (fields_of t) m w -> len w < lim ->
+    exists fuel r v0, Unmarshal fuel t w (zero_val t) = Ok (Some r) /\ of_msg t m = Some v0 /\ norm r = norm v0.
+
+Theorem unmarshal_reencoded_zz : unmarshal_reencoded_zz_statement.
+Proof.
+  intros bp t m w Hty Hst Hnum Htag Hpl Hzz Hdw Hmw Hre Hlen.
+  assert (Hw : wfb w = true).
+  { destruct Hre as (trees & _ & Hp & ->). apply sers_wfb, Hp. }
+  apply (WireDecProofs.unmarshal_refines_zz t w m); try assumption.
+  apply (WireSpecProofs.spec_reencode pkgd bp (fields_of t) m w); try assumption.
+  right. left. reflexivity.
+Qed.
+
+(* and the reference semantics agrees: the specification itself reads w as m *)
+Corollary reencoded_both : forall bp t m w, type_ok t = true -> is_struct_ty t = true -> numbers_ok (codec_of t) = true ->
+    tags_sane t = true -> plain t = true -> zz_struct_ok t = true ->
+    desc_wf (PMsg (fields_of t)) = true -> msg_wf (PMsg (fields_of t)) (PVMsg m) = true ->
+    reencodes bp (fields_of t) m w -> len w < lim ->
+    spec_decode std (fields_of t) w = Some m /\
+    exists fuel r v0, Unmarshal fuel t w (zero_val t) = Ok (Some r) /\ of_msg t m = Some v0 /\ norm r = norm v0.
+Proof.
+  intros bp t m w Hty Hst Hnum Htag Hpl Hzz Hdw Hmw Hre Hlen. split.
+  - apply (WireSpecProofs.spec_reencode std bp (fields_of t) m w); try assumption. left. reflexivity.
+  - apply (unmarshal_reencoded_zz bp t m w); assumption.
+Qed.
